@@ -34,6 +34,10 @@ func drawC18(t *rapid.T, x *X) *Case {
 		j.Plan = drawPlan(t, g, 2, true, false)
 		j.Plan.TryStateWrites = gspec.U(t, 2, "trywrites") == 0
 		j.ViaReader = gspec.U(t, 3, "viareader") == 0
+		if gspec.U(t, 5, "invalidutf8") == 0 {
+			j.Input = gspec.InvalidUTF8Edit(t, j.Input)
+		}
+		j.Opts.AllowInvalid = gspec.U(t, 3, "allowinvalid") == 0
 		j.Opts.Memoize = gspec.U(t, 3, "memo") == 0
 		j.Opts.Stats = gspec.U(t, 4, "stats") == 0
 		if g.HasState && gspec.U(t, 2, "initstate") == 0 {
@@ -62,7 +66,7 @@ func runJob(pk PkgMeta, j *Job, safety uint64) *jobResult {
 	reg := vrt.Lookup(pk.Name)
 	ctx := vrt.NewCtx(j.Plan)
 	req := &vrt.Request{Entry: j.Entry, Filename: j.Opts.Filename, Input: j.Input, Memoize: j.Opts.Memoize && !pk.Optimized, Stats: j.Opts.Stats && !pk.Optimized,
-		MaxExpr: safety, InitState: initStateOf(j.Opts), Ctx: ctx, ViaReader: j.ViaReader}
+		MaxExpr: safety, InitState: initStateOf(j.Opts), Ctx: ctx, ViaReader: j.ViaReader, AllowInvalid: j.Opts.AllowInvalid}
 	if len(j.Opts.InitInts) > 0 && !pk.HasInitState {
 		req.InitState = nil
 	}
@@ -79,7 +83,7 @@ func runShared(pk PkgMeta, c *Case, safety uint64, concurrent bool) []*jobResult
 	j0 := &c.Jobs[0]
 	reqs := make([]*vrt.Request, len(c.Jobs))
 	for i := range c.Jobs {
-		reqs[i] = &vrt.Request{Entry: j0.Entry, Filename: c.Jobs[i].Opts.Filename, Input: c.Jobs[i].Input, Memoize: j0.Opts.Memoize && !pk.Optimized, MaxExpr: safety}
+		reqs[i] = &vrt.Request{Entry: j0.Entry, Filename: c.Jobs[i].Opts.Filename, Input: c.Jobs[i].Input, Memoize: j0.Opts.Memoize && !pk.Optimized, MaxExpr: safety, AllowInvalid: j0.Opts.AllowInvalid}
 	}
 	start := time.Now()
 	resps := reg.RunShared(reqs, concurrent)
